@@ -173,7 +173,7 @@ Proof.
 Qed.
 
 (* evaluation of the construct at position p of a whole state tree S *)
-Definition xeval_at (n : nat) (ft : list fentry) (now : Z) (sv : Z) (r : xenv) (e : xexpr) (S : stree) (p : list nat) (w : world)
+Definition xeval_at (n : nat) (ft : list fentry) (now : Z) (sv : stree) (r : xenv) (e : xexpr) (S : stree) (p : list nat) (w : world)
   : res (val * stree * world) :=
   match xeval n ft now sv r e (sub S p) w with
   | Ok (v, s', w') => Ok (v, upd S p s', w')
